@@ -169,5 +169,11 @@ fn main() {
     ]));
     run.ev.set("rule", json!("closure BFS per filter over the complete hash-class universe; insert of every element, delete of currently inserted elements (cuckoo), clear (bloom/hashset), union over ordered pairs of reachable states; every cuckoo insert/union is executed once per RNG outcome"));
     run.ev.assume("hasher seam TableHasher; RNG seam rand-shim; cuckoo kick budgets as listed (hook only shortens the loop), real 500-kick limit covered by free prefix x 3 tail policies");
+    // the Extend implementations deliver the same streams: extend(chunk1); extend(chunk2) == add loop
+    let (xp_cases, xp_viols) = checks::extendpaths::bloom(if thorough { 5 } else { 4 });
+    for v in xp_viols {
+        run.violation(v);
+    }
+    run.ev.set("extend_path_cases", serde_json::json!(xp_cases));
     run.finish();
 }
